@@ -151,6 +151,77 @@ def wasm_op_table(prog, res):
     return None, None
 
 
+def _variant_paths(prog, b, adt, v, param_local=1, limit=400):
+    """Enumerate the acyclic paths of b that are feasible when the enum parameter holds variant v: switches on the
+    discriminant of that parameter follow only the matching target; every other switch forks. Yields (blocks, conds)
+    where conds is a list of (switch block, successor)."""
+    from ..tables import place_type
+    cfg = cfg_of(b)
+    out = []
+
+    def disc_switch_target(bi):
+        t = b.blocks[bi].term
+        if t[0] != 'switch' or t[1][0] not in ('c', 'm'):
+            return None
+        sd = single_def(b, t[1][1].local)
+        if not sd or sd[1] == 'term' or sd[2][0] != 'disc':
+            return None
+        pl = sd[2][1]
+        r, p = root_local(b, pl.local)
+        if r != param_local or [e for e in p if e[0] == 'f'] or [e for e in pl.proj if e[0] == 'f']:
+            return None
+        for val, tg in t[2]:
+            if val == v:
+                return tg
+        return t[3]
+    def consts_after(bi, env):
+        """constants assigned to whole locals in block bi (path-local constant propagation, so that a materialised
+        `matches!(op, ..)` boolean is followed only along its feasible edge)"""
+        env = dict(env)
+        for st in b.blocks[bi].stmts:
+            if st[0] != 'a':
+                continue
+            pl, rv = st[1], st[2]
+            if pl.proj:
+                continue
+            if rv[0] == 'use' and rv[1][0] == 'k' and rv[1][1].i is not None:
+                env[pl.local] = rv[1][1].i
+            elif rv[0] == 'use' and rv[1][0] in ('c', 'm') and not rv[1][1].proj and rv[1][1].local in env:
+                env[pl.local] = env[rv[1][1].local]
+            else:
+                env.pop(pl.local, None)
+        t = b.blocks[bi].term
+        if t[0] == 'call' and t[4] is not None and not t[4].proj:
+            env.pop(t[4].local, None)
+        return env
+
+    def const_switch_target(bi, env):
+        t = b.blocks[bi].term
+        if t[0] != 'switch' or t[1][0] not in ('c', 'm') or t[1][1].proj or t[1][1].local not in env:
+            return None
+        val = env[t[1][1].local]
+        for vv, tg in t[2]:
+            if vv == val:
+                return tg
+        return t[3]
+    stack = [(0, (0,), (), consts_after(0, {}))]
+    while stack and len(out) < limit:
+        bi, path, conds, env = stack.pop()
+        t = b.blocks[bi].term
+        if t[0] in ('ret',) or not cfg.succ[bi]:
+            out.append((path, conds))
+            continue
+        tg = disc_switch_target(bi)
+        if tg is None:
+            tg = const_switch_target(bi, env)
+        succs = [tg] if tg is not None else list(dict.fromkeys(cfg.succ[bi]))
+        for s_ in succs:
+            if s_ in path or b.blocks[s_].cleanup:
+                continue
+            stack.append((s_, path + (s_,), conds + (((bi, s_),) if len(succs) > 1 else ()), consts_after(s_, env)))
+    return out
+
+
 def run_fold_table(prog, tier, repo):
     res = RuleResult('FOLD-TABLE', 'C02: constant folding computes exactly what the target computes - per operator, the '
                      'folding arithmetic is the wasm opcode the same operator is lowered to')
@@ -162,21 +233,55 @@ def run_fold_table(prog, tier, repo):
     if wtable is None:
         res.cannot_decide('operator -> wasm mnemonic table in the wasm printer')
         return [res]
-    # the folder: function (BinaryOperator, i32, i32) -> Option<i32> in the optimizer
     folders = []
     for b in prog.bodies.values():
         if b.crate != 'samlang_optimization' or b.kind == 'closure' or b.nargs != 3:
             continue
-        if b.locals[1].k == 'adt' and b.locals[1].id == binop.id and b.locals[2].s == 'i32' and b.locals[3].s == 'i32':
-            tbs = [t for t in enum_switches(prog, b, binop.id) if t.place.local == 1]
-            if tbs:
-                folders.append((b, tbs[0]))
+        if b.locals[1].k == 'adt' and b.locals[1].id == binop.id and b.locals[2].s == 'i32' and b.locals[3].s == 'i32' \
+                and enum_switches(prog, b, binop.id):
+            folders.append(b)
     if len(folders) != 1:
         res.cannot_decide(f'the constant folder fn(BinaryOperator, i32, i32) (found {len(folders)})')
         return [res]
-    b, tb = folders[0]
-    regions, _ = arm_regions(b, tb)
+    b = folders[0]
     cfg = cfg_of(b)
+
+    def ops_in_block(bi):
+        found = []
+        bl = b.blocks[bi]
+        for st in bl.stmts:
+            if st[0] == 'a' and st[2][0] == 'bin':
+                op = NORM.get(st[2][1], st[2][1])
+                x, y = st[2][2], st[2][3]
+                px, py = _param_root(b, x), _param_root(b, y)
+                if px is not None and py is not None:
+                    lt = b.locals[x[1].local].s if x[0] in ('c', 'm') else None
+                    found.append((op, px, py, lt, st[3], None))
+        t = bl.term
+        if t[0] == 'call':
+            nm = (callee(t)[1] or '').split('::')[-1]
+            if nm in WRAPPING and len(t[3]) == 2:
+                px, py = _param_root(b, t[3][0]), _param_root(b, t[3][1])
+                if px is not None and py is not None:
+                    lt = b.locals[t[3][0][1].local].s if t[3][0][0] in ('c', 'm') else None
+                    found.append((WRAPPING[nm], px, py, lt, t[7], nm))
+        return found
+
+    def nonzero_on(conds):
+        """does the path establish divisor (param 3) != 0 through a comparison with the constant 0?"""
+        for (sb, succ) in conds:
+            t = b.blocks[sb].term
+            sd = single_def(b, t[1][1].local) if t[1][0] in ('c', 'm') else None
+            if not sd or sd[1] == 'term' or sd[2][0] != 'bin' or sd[2][1] not in ('Eq', 'Ne'):
+                continue
+            x, y = sd[2][2], sd[2][3]
+            for u, w in ((x, y), (y, x)):
+                if w[0] == 'k' and w[1].i == 0 and _param_root(b, u) == 3:
+                    zero_targets = {tg for vv, tg in t[2] if vv == 0}
+                    is_true_edge = succ not in zero_targets
+                    if (sd[2][1] == 'Eq') != is_true_edge:
+                        return True
+        return False
     for v, var in enumerate(binop.variants):
         key = f'fold:{var.name}'
         mn = wtable[v]
@@ -184,36 +289,20 @@ def run_fold_table(prog, tier, repo):
             res.cannot_decide(f'unknown wasm mnemonic {mn} for {var.name}')
             continue
         want_op, want_sign, traps = WASM_SEM[mn]
-        found = []
-        guard_zero = []
-        for bi in sorted(regions[v]):
-            bl = b.blocks[bi]
-            for st in bl.stmts:
-                if st[0] == 'a' and st[2][0] == 'bin':
-                    op = NORM.get(st[2][1], st[2][1])
-                    x, y = st[2][2], st[2][3]
-                    px, py = _param_root(b, x), _param_root(b, y)
-                    if px is not None and py is not None:
-                        lt = b.locals[x[1].local].s if x[0] in ('c', 'm') else None
-                        found.append((op, px, py, lt, st[3]))
-                    elif op in ('Eq', 'Ne') and ((py == 3 and x[0] == 'k' and x[1].i == 0) or (px == 3 and y[0] == 'k' and y[1].i == 0)):
-                        guard_zero.append((bi, st[1].local, op))
-            t = bl.term
-            if t[0] == 'call':
-                nm = (callee(t)[1] or '').split('::')[-1]
-                if nm in WRAPPING and len(t[3]) == 2:
-                    px, py = _param_root(b, t[3][0]), _param_root(b, t[3][1])
-                    if px is not None and py is not None:
-                        lt = b.locals[t[3][0][1].local].s if t[3][0][0] in ('c', 'm') else None
-                        found.append((WRAPPING[nm], px, py, lt, t[7]))
-                        if nm.startswith('checked_'):
-                            guard_zero.append((bi, None, 'checked'))
-        core = [f for f in found]
-        if len(core) != 1:
-            res.violation(key, b.loc(), f'{b.name}: arm {var.name} does not consist of exactly one arithmetic operation on the two '
-                          f'operands (found {[(f[0]) for f in core]}); cannot match it to i32.{mn}')
+        paths = _variant_paths(prog, b, binop, v)
+        seen_ops = {}
+        unguarded = False
+        for path, conds in paths:
+            for bi in path:
+                for f in ops_in_block(bi):
+                    seen_ops[(f[0], f[1], f[2], f[3], f[5])] = f[4]
+                    if traps and not nonzero_on(conds) and not (f[5] or '').startswith('checked_'):
+                        unguarded = True
+        if len(seen_ops) != 1:
+            res.violation(key, b.loc(), f'{b.name}: with operator {var.name} the folder does not perform exactly one arithmetic '
+                          f'operation on the two operands (found {sorted(k[0] for k in seen_ops)}); cannot match it to i32.{mn}')
             continue
-        op, px, py, lt, line = core[0]
+        (op, px, py, lt, via), line = next(iter(seen_ops.items()))
         problems = []
         if op != want_op:
             problems.append(f'folds with {op} but the target executes i32.{mn} ({want_op})')
@@ -222,14 +311,15 @@ def run_fold_table(prog, tier, repo):
                 problems.append('operands are swapped or duplicated')
         if want_sign is not None and lt != want_sign:
             problems.append(f'operates on {lt} but i32.{mn} is {"unsigned" if want_sign == "u32" else "signed"}')
-        if want_sign is None and want_op in ('Shl',) and lt not in ('i32', 'u32'):
-            problems.append(f'unexpected operand type {lt}')
-        if traps and not guard_zero:
-            problems.append(f'no zero-divisor guard although i32.{mn} traps on zero (folding must leave the trap to run time)')
+        if traps and unguarded:
+            problems.append(f'a path folds with a zero divisor not excluded although i32.{mn} traps on zero (the trap must be left to run time)')
+        if want_op == 'Div' and want_sign == 'i32' and via not in ('checked_div',) :
+            problems.append('i32.div_s also traps on i32::MIN / -1; only checked_div (None on overflow) leaves that trap to run '
+                            f'time, but the fold uses {via or "the `/` operator"}')
         if problems:
             res.violation(key, b.loc(line), f'{b.name}: {var.name}: ' + '; '.join(problems))
         else:
-            res.ok(key, b.loc(line), f'{var.name} folded with {op} on {lt or "i32"} operands in order = i32.{mn}')
+            res.ok(key, b.loc(line), f'{var.name} folded with {via or op} on {lt or "i32"} operands in order = i32.{mn}')
     res.analysed['folder'] = b.name
     res.analysed['wasm_table_from'] = wbody.name
     return [res]
